@@ -494,3 +494,92 @@ func replayKeyTableImports(term string, extra []string, body string) string {
 	s.prepareKeys()
 	%s`, term, body))
 }
+
+// ---- C17: buildAcsMap on every description ----
+
+func c17AcsMaps(run *PropRun) {
+	e := run.Eng
+	db := LoadTermDB(e, true)
+	c := db.Ev.C
+	fn := e.FindFunc(modPath + ".(*tScreen).buildAcsMap")
+	if fn == nil {
+		panic(VerErr{"UNDECIDED: (*tScreen).buildAcsMap not found"})
+	}
+	// vtACSNames from the real package variable
+	sp := e.SPkgs[modPath]
+	names := map[byte]int64{}
+	{
+		st := db.St.clone()
+		o := c.globalObj(st, sp.Var("vtACSNames"))
+		mv := c.mem(st, o).(MapV)
+		for _, en := range c.mapObj(st, mv).Entries {
+			names[byte(termInt(en.K))] = termInt(en.V)
+		}
+	}
+	tsT := sp.Type("tScreen").Type()
+	stt := under(tsT).(*types.Struct)
+	n := 0
+	for _, te := range db.Entries {
+		acsc := db.str(te, "AltChars")
+		enter, exit := db.str(te, "EnterAcs"), db.str(te, "ExitAcs")
+		st := db.St.clone()
+		st.Frames = nil
+		st.PathID = 0
+		tobj := c.newObject("tscreen", tsT)
+		tv := c.zeroValue(st, tsT).(*StructV)
+		nf := &StructV{Typ: tv.Typ, F: append([]Value(nil), tv.F...)}
+		for i := 0; i < stt.NumFields(); i++ {
+			if stt.Field(i).Name() == "ti" {
+				nf.F[i] = te.Ptr
+			}
+		}
+		st.Mem[tobj] = nf
+		paths, err := db.Ev.Call(st, fn, []Value{PtrV{Obj: tobj}})
+		if err != nil || len(paths) != 1 {
+			run.Errors = append(run.Errors, fmt.Sprintf("acsmap[%s]: %v (%d paths)", te.Name, err, len(paths)))
+			continue
+		}
+		fs := paths[0].St
+		got := map[int64]string{}
+		tval := c.mem(fs, tobj).(*StructV)
+		for i := 0; i < stt.NumFields(); i++ {
+			if stt.Field(i).Name() == "acs" {
+				for _, en := range c.mapObj(fs, tval.F[i].(MapV)).Entries {
+					got[termInt(en.K)] = *en.V.(StrV).Conc
+				}
+			}
+		}
+		// specification: every pair (name, glyph) of acsc whose name is a known ACS name
+		want := map[int64]string{}
+		for i := 0; i+1 < len(acsc); i += 2 {
+			if r, ok := names[acsc[i]]; ok {
+				want[r] = enter + string(acsc[i+1]) + exit
+			}
+		}
+		bad := ""
+		for r, s := range want {
+			if got[r] != s {
+				bad += fmt.Sprintf(" U+%04X: have %q want %q;", r, got[r], s)
+			}
+		}
+		for r := range got {
+			if _, ok := want[r]; !ok {
+				bad += fmt.Sprintf(" U+%04X unexpected;", r)
+			}
+		}
+		g := run.AddObligation(fmt.Sprintf("acsmap[%s]", te.Name), "table", BoolT(bad == ""),
+			fmt.Sprintf("buildAcsMap of %s maps the rune of EVERY (name, glyph) pair of acsc (%d pairs) to smacs+glyph+rmacs%s", te.Name, len(acsc)/2, bad))
+		last := ""
+		if len(acsc) >= 2 {
+			if r, ok := names[acsc[len(acsc)-2]]; ok {
+				last = fmt.Sprintf(`if got, ok := s.acs[rune(%d)]; !ok || got != %q { fail("%s: the last acsc pair (rune U+%04X) is missing from the ACS map: have %%q want %%q", got, %q); return }`, r, want[r], te.Name, r, want[r])
+			}
+		}
+		g.ReplayGo = replayKeyTable(te.Name, "s.buildAcsMap()\n\t"+last)
+		n++
+	}
+	run.Extra["acs_maps_evaluated"] = n
+	for k := range c.Assumed {
+		run.Assumed[k] = true
+	}
+}
